@@ -81,8 +81,24 @@ func (p *Program) ruleSegmentForwarders(c *Check) {
 	lcp := p.SSAFunc(p.Method("geometry", "Line", "ContainsPoint"))
 	if lcp != nil {
 		okOn := false
+		// the method itself and the same-package helpers it delegates to
+		// (depth 2); the Search callback is a closure of one of them
+		owners := map[*ssa.Function]bool{lcp: true}
+		for depth := 0; depth < 2; depth++ {
+			for o := range owners {
+				for _, b := range o.Blocks {
+					for _, in := range b.Instrs {
+						if cl, ok := in.(ssa.CallInstruction); ok {
+							if sc := cl.Common().StaticCallee(); sc != nil && sc.Pkg == lcp.Pkg && sc.Object() != rc && sc.Blocks != nil {
+								owners[sc] = true
+							}
+						}
+					}
+				}
+			}
+		}
 		for _, fn := range p.RepoSourceFuncs() {
-			if fn.Parent() != lcp {
+			if !owners[fn.Parent()] && !owners[fn] {
 				continue
 			}
 			for _, b := range fn.Blocks {
